@@ -656,8 +656,11 @@ static int run_family(Family &f, Ctx &cx)
   std::unordered_map<std::string, std::string> memo; // (base mode, stripped sequence) -> observation text
   Obs                                          dflt_obs;
   {
-    bool l;
-    dflt_obs = guarded_run(f, {}, 0, cx, "null", &l);
+    // the empty input is a case like any other: a crash in it belongs to it
+    bool        l;
+    std::string cj0 = case_json(f, 0, {}, 0);
+    vf::set_current_case(cj0, f.prop + ":crash:" + f.name);
+    dflt_obs = guarded_run(f, {}, 0, cx, cj0, &l);
   }
   std::set<std::string> reported; // keys already minimised in this process
   std::vector<CrashKnown> crash_known;
